@@ -160,6 +160,8 @@ def run_c14(ctx):
         if len(ctx.samples) < 6 and ctx.evaluations % 13 == 0:
             ctx.samples.append("%s -> %s" % (m["description"], "compiles" if rc == 0 else "rejected %s" % c))
     ctx.subruns.append({"engine": "rustc --emit=metadata on generate() output + `fn requires<T: Send|Sync>()`", "probes": len(manifest), "dir": d})
+    import props_gen
+    props_gen.thread_half(ctx)
 
 
 # ---- C17 -------------------------------------------------------------------------------------
@@ -402,7 +404,7 @@ CHECKS = {
             "rule": "probes = (palette type x first/later variant x alone/next to an unperturbed datum of the same type x perturbation of the recorded size (-1 unit, -1 byte, +1 unit) or alignment (/2, x2) or may-be-uninitialised on a non-Copy type) through add_datum_override and through a stale pre-computed table, each cell with an unperturbed control that must compile; non-trivial = perturbed probe (controls are not counted)"},
     "C14": {"run": run_c14, "replay": replay, "level": "exploration",
             "assumptions": ["expected auto traits of the field types are the standard library's (Rc: neither, Cell/RefCell/Receiver: Send only, MutexGuard: Sync only, raw pointer: neither)"],
-            "rule": "probes = (6 modules x every variant x {Send, Sync} x {published capacity, +8}); expectation computed per variant from the field types it holds; non-trivial = probe where some field lacks the trait (the only-if direction); the remaining probes check the converse"},
+            "rule": "probes = (9 modules x every variant x {Send, Sync} x {published capacity, +8}); expectation computed per variant from the field types it holds; non-trivial = probe where some field lacks the trait (the only-if direction); the remaining probes check the converse. Dynamic half: episodes of the engine-B drivers (all field types Send + Sync) in which records are read by three threads at once through a shared reference and moved to another thread and back, natively and under Miri's data race detector; non-trivial = the episode contains such an operation"},
     "C17": {"run": run_c17, "replay": replay, "level": "exploration",
             "assumptions": ["types are drawn from a grammar over primitives, String, Box, Vec, Option, Result, tuples, arrays, boxed slices and user-crate types (some of them named like the standard ones)", "TypeId equality is the oracle for 'denotes the same type'"],
             "rule": "types = complete grammar at depth <= 1 (thorough: unary constructors complete at depth 2) + seeded samples at depth 2-4; for each type: recorded name compiled in another crate and compared by TypeId, and a table holding the type looked up under 7 spellings; non-trivial = nesting depth >= 2"},
